@@ -184,9 +184,9 @@ def directed(rng, v, siblings=(), budget=24, sentinels=24):
     rng.shuffle(out)
     out = out[:budget]
     if not text:
-        # the all-ones sentinel of a 32- or 64-bit field (timestamps, lengths) at the offsets of the first bytes; these do not
+        # the all-ones sentinel of a 16-, 24-, 32- or 64-bit field (timestamps, lengths, packet sizes) at the offsets of the first bytes; these do not
         # compete with the other malformations for the budget
-        spots = [(ln, i) for ln in (8, 4) for i in range(0, max(0, min(len(v), 128) - ln + 1))]
+        spots = [(ln, i) for ln in (8, 4, 3, 2) for i in range(0, max(0, min(len(v), 128 if ln > 3 else 32) - ln + 1))]
         for ln, i in (spots if sentinels is None else rng.sample(spots, min(len(spots), sentinels))):
             out.append(v[:i] + b'\xff' * ln + v[i + ln:])
     return out
